@@ -1,6 +1,6 @@
 (* One entry point for the correspondence check: numeric opcode + wire value. *)
 From WS Require Import Base.Py.
-From WS Require Folding.Model.
+From WS Require Folding.Model TP.Model.
 
 Definition dispatch (op : Z) (j : J) : J :=
   match op with
@@ -8,5 +8,6 @@ Definition dispatch (op : Z) (j : J) : J :=
   | 702 => Folding.Model.run_fold j
   | 703 => Folding.Model.run_unfold j
   | 704 => Folding.Model.run_fold_unfold j
+  | 901 => TP.Model.run_segment j
   | _ => j_bad
   end%Z.
